@@ -335,6 +335,59 @@ def _hof_cont(eng, st, rv):
     return _hof_next(eng, st, rv)
 
 
+@model(r"^Option::<.*>::as_ref$|^Option::<.*>::as_mut$")
+def m_option_as_ref(eng, st, callee, a, ty):
+    """Option<T> -> Option<&T>: a reference into the payload slot (shared cell, so writes through
+    as_mut are seen by the owner)."""
+    from .engine import Ref as _Ref
+    r = a[0]
+    o = eng.deref(r)
+    outs = []
+    for s2, some in fork_on(eng, st, o.disc == BV(1, 64)):
+        if some:
+            r2 = r
+            if s2 is not st:
+                from . import world as _W
+                r2 = _W._ref_in(eng, st, s2, r)
+            outs.append((mk_option(_Ref(r2.cell, tuple(r2.path) + (("field", 0),))), None, s2))
+        else:
+            outs.append((mk_option(), None, s2))
+    return outs
+
+
+@model(r"^Option::<.*>::take$")
+def m_option_take(eng, st, callee, a, ty):
+    old = eng.deref(a[0])
+    eng.store(a[0], mk_option())
+    return one(old)
+
+
+@model(r"^Option::<.*>::replace$|^Option::<.*>::insert$")
+def m_option_replace(eng, st, callee, a, ty):
+    old = eng.deref(a[0])
+    eng.store(a[0], mk_option(a[1]))
+    return one(old)
+
+
+def _option_map_step(eng, st, job, last):
+    if last is None:
+        return ("call", job["f"], [job["x"]])
+    return ("done", one(mk_option(last)))
+
+
+@model(r"^Option::<.*>::map::<")
+def m_option_map(eng, st, callee, a, ty):
+    o, f = a
+    out = []
+    for s2, some in fork_on(eng, st, o.disc == BV(1, 64)):
+        if some:
+            sub = hof_start(eng, s2, _option_map_step, {"f": f, "x": o.f[0]})
+            out.extend((v, c, s3 if s3 is not None else s2) for v, c, s3 in sub)
+        else:
+            out.append((mk_option(), None, s2))
+    return out
+
+
 @model(r"^NonZero::<\w+>::get$")
 def m_nonzero_get(eng, st, callee, a, ty):
     return one(a[0])
